@@ -1,11 +1,13 @@
 -- REGENERATED on every run by /verif/check from the compiled /repo tree. Do not edit.
 namespace SdnsVerif.Gen.C08
 
+def lease_ceiling_ns : Nat := 43200000000000
 def maximumTTL_ns : Nat := 43200000000000
 def shape_cached_descent_min : Bool := true
 def shape_ds_bounds_lease : Bool := true
 def shape_hit_does_not_store : Bool := true
 def shape_lease_anchored_at_observation : Bool := true
+def shape_lease_clamped_at_observation : Bool := true
 def shape_notecut_after_each_cut : Bool := true
 def shape_observed_before_validate : Bool := true
 def shape_provisional_bounded_by_cut : Bool := true
